@@ -116,6 +116,7 @@ func c06Range(args []string, n int) (int, int) {
 
 func c06RenderWorker(args []string) {
 	c06LimitMemory()
+	c06InstallUserCode()
 	var in c06RenderInput
 	c06Load(args[0], &in)
 	start, end := c06Range(args, len(in.Cases))
@@ -772,6 +773,8 @@ type c06Plan struct {
 	reg     string // model registry key, "" = not loaded
 	hasJSON bool
 	nontriv bool
+	depth   int // known call depth of the run + 1 (0 = unknown): recursion plans
+	user    bool // uses the functions / directives of c06InstallUserCode: compared with the model op c06_render_user
 }
 
 func runC06(e *env) {
@@ -986,7 +989,7 @@ func c06Enumerations(e *env) []c06Plan {
 	for d := 1; d <= 60; d++ {
 		tree = data.Map{"v": data.Int(d), "kids": data.List{tree, data.Map{"v": data.String("leaf")}}}
 		if d == 1 || d == 7 || d == 25 || d == 60 {
-			plans = append(plans, c06Plan{c: c06Render{Kind: "render", Files: files, Template: "rec.tree", Data: valueSexp(tree, ids), Tag: "recursion"}, nontriv: true})
+			plans = append(plans, c06Plan{c: c06Render{Kind: "render", Files: files, Template: "rec.tree", Data: valueSexp(tree, ids), Tag: "recursion"}, nontriv: true, depth: d + 1})
 		}
 	}
 	// a leaf whose kids is not a list: the error is raised 20 calls deep
@@ -994,12 +997,12 @@ func c06Enumerations(e *env) []c06Plan {
 	for d := 1; d <= 20; d++ {
 		badTree = data.Map{"v": data.Int(d), "kids": data.List{badTree}}
 	}
-	plans = append(plans, c06Plan{c: c06Render{Kind: "render", Files: files, Template: "rec.tree", Data: valueSexp(badTree, ids), Tag: "recursion"}, nontriv: true})
+	plans = append(plans, c06Plan{c: c06Render{Kind: "render", Files: files, Template: "rec.tree", Data: valueSexp(badTree, ids), Tag: "recursion"}, nontriv: true, depth: 20 + 1})
 	for _, n := range []int64{0, 1, 5, 40, 150} {
-		plans = append(plans, c06Plan{c: c06Render{Kind: "render", Files: files, Template: "rec.down", Data: valueSexp(data.Map{"n": data.Int(n)}, ids), Tag: "recursion"}, nontriv: true})
-		plans = append(plans, c06Plan{c: c06Render{Kind: "render", Files: files, Template: "rec.wrap", Data: valueSexp(data.Map{"n": data.Int(n)}, ids), Tag: "recursion"}, nontriv: true})
+		plans = append(plans, c06Plan{c: c06Render{Kind: "render", Files: files, Template: "rec.down", Data: valueSexp(data.Map{"n": data.Int(n)}, ids), Tag: "recursion"}, nontriv: true, depth: int(n) + 1})
+		plans = append(plans, c06Plan{c: c06Render{Kind: "render", Files: files, Template: "rec.wrap", Data: valueSexp(data.Map{"n": data.Int(n)}, ids), Tag: "recursion"}, nontriv: true, depth: int(n) + 2})
 	}
-	plans = append(plans, c06Plan{c: c06Render{Kind: "render", Files: files, Template: "rec.down", Data: valueSexp(data.Map{"n": data.String("x")}, ids), Tag: "recursion"}, nontriv: true})
+	plans = append(plans, c06Plan{c: c06Render{Kind: "render", Files: files, Template: "rec.down", Data: valueSexp(data.Map{"n": data.String("x")}, ids), Tag: "recursion"}, nontriv: true, depth: 0 + 1})
 	plans = append(plans, c06Plan{c: c06Render{Kind: "render", Files: files, Template: "rec.nosuch", Data: "nil", Tag: "recursion"}, nontriv: true})
 	// a long message as the very last thing of a file (its text and tag parts are the nodes with the
 	// largest positions), with an error raised at every Write call in turn and inside its placeholders
@@ -1013,6 +1016,8 @@ func c06Enumerations(e *env) []c06Plan {
 	plans = append(plans, c06Plan{c: c06Render{Kind: "render", Files: []srcFile{{Name: "tail.soy", Text: msgPlural}}, Template: "m.t", Data: valueSexp(data.Map{"i": data.Int(3), "u": data.String("two")}, ids), Tag: "msg-tail"}, nontriv: true})
 	plans = append(plans, c06EnumBundles("enum-floats", c06FloatBodies(), 40)...)
 	plans = append(plans, c06SameNamePlans()...)
+	plans = append(plans, c06JsonPlans()...)
+	plans = append(plans, c06UserPlans()...)
 	// duplicate template names: the ledger's witness, both file orders, error in the long and in the short file
 	long := "{namespace a}\n" + strings.Repeat("// padding padding padding\n", 10) + "/** */\n{template .t}\n{1 < 'a'}\n{/template}\n"
 	short := "{namespace a}\n/** */\n{template .t}\nx{1 % 0}\n{/template}\n"
@@ -1127,6 +1132,7 @@ func c06RunRenderPlans(e *env, plans []c06Plan, perCase time.Duration) {
 	// ---- model ----
 	var reqs []string
 	reqIx := make([]int, len(plans))
+	depthIx := map[int]int{}
 	var regOkIx, regOkCase []int
 	loaded := ""
 	for i, p := range plans {
@@ -1154,7 +1160,17 @@ func c06RunRenderPlans(e *env, plans []c06Plan, perCase time.Duration) {
 		if p.c.FailAt > 0 {
 			cl = "#" + strconv.Itoa(p.c.FailAt-1)
 		}
-		reqs = append(reqs, strings.Join([]string{"render", "c06", sx(p.c.Template), c06Fuel, cl, "none", "-", ij, ";", d}, " "))
+		// the extended model (Model/InterpExt.v: escapeJsString, json and round with digits inside the model)
+		op := "render_xj"
+		if p.user {
+			op = "c06_render_user"
+		}
+		reqs = append(reqs, strings.Join([]string{op, "c06", sx(p.c.Template), c06Fuel, cl, "none", "-", ij, ";", d}, " "))
+		if p.depth > 0 && p.c.FailAt == 0 {
+			// the quantitative bound: fuel = reg_height * (d+1), the d-capped and the (d-1)-capped walk
+			depthIx[i] = len(reqs)
+			reqs = append(reqs, strings.Join([]string{"c06_depth", "c06", sx(p.c.Template), "#" + strconv.Itoa(p.depth-1), ij, ";", d}, " "))
+		}
 	}
 	if d := os.Getenv("C06_DUMP"); d != "" {
 		os.WriteFile(d, []byte(strings.Join(reqs, "\n")+"\n"), 0o644)
@@ -1217,6 +1233,9 @@ func c06RunRenderPlans(e *env, plans []c06Plan, perCase time.Duration) {
 			e.res.Fail(hx.Violation{Kind: "mismatch", What: "model render failed", Case: p.c, Observed: fmt.Sprint(m)}, "")
 			continue
 		}
+		if ix, ok := depthIx[i]; ok {
+			c06CheckDepth(e, p, resp[ix])
+		}
 		mcls := strings.Split(m[0], ",")[0]
 		var mo strings.Builder
 		for _, f := range m[5:] {
@@ -1226,8 +1245,14 @@ func c06RunRenderPlans(e *env, plans []c06Plan, perCase time.Duration) {
 		out := hx.UnH(fields[1])
 		switch mcls {
 		case "outofmodel", "fuel":
-			// floats outside the dyadic domain, randomInt, json/escapeJsString: only the oracle applies
+			// floats outside the dyadic domain, randomInt: only the oracle applies
+			if p.hasJSON {
+				e.res.Histogram["model:outofmodel-with-json-or-escapeJsString"]++
+			}
 		case "ok":
+			if p.hasJSON {
+				e.res.Histogram["model:ok-with-json-or-escapeJsString"]++
+			}
 			if cls != "ok" {
 				e.res.Fail(hx.Violation{Kind: "mismatch", What: "implementation returns an error, the model renders", Case: p.c, Expected: hx.Q(mo.String()), Observed: hx.UnH(fields[2])}, "")
 			} else if mo.String() != out && c06HugeFloatToInt(c06TemplateBody(p.c.Files, p.c.Template)) {
@@ -1238,11 +1263,6 @@ func c06RunRenderPlans(e *env, plans []c06Plan, perCase time.Duration) {
 			}
 		case "err":
 			if cls != "error" {
-				if p.hasJSON {
-					// |json encodes the value itself (undefined inside a list is null), the model works on String() images
-					e.res.Histogram["skipped:json-on-unprintable"]++
-					break
-				}
 				e.res.Fail(hx.Violation{Kind: "mismatch", What: "the model reports a render error, the implementation renders", Case: p.c, Expected: "error: " + m[0], Observed: hx.Q(out)}, "")
 			}
 		default: // crash, diverge
@@ -1293,6 +1313,7 @@ func c06ExprTexts(e *env) []c06Expr {
 	add("ledger", "1 < 'a'")
 	add("ledger", "-'x'")
 	c06ExtraExprs(e, add)
+	c06RangeGrid(add)
 	// random closed expressions from the program grammar with the ill-typed hooks
 	g := &progGen{r: e.rng, o: progOpts{depth: 3, illTyped: 20, exprHook: c06ExprHook}, feats: map[string]int{}}
 	for i := 0; i < 150*e.scale; i++ {
@@ -1335,6 +1356,16 @@ func c06Exprs(e *env, perCase time.Duration) {
 			reqs = append(reqs, "c06_eval #1 "+c06Fuel+" "+hx.UnH(f[1]))
 		}
 	}
+	// the byte-string model: the text itself goes to the scanner and parser models
+	bytesIx := make([]int, len(cs))
+	for i := range cs {
+		bytesIx[i] = -1
+		f := strings.Fields(res[i].Out)
+		if res[i].Status == "done" && len(f) >= 1 && (f[0] == "ok" || f[0] == "error" || f[0] == "perr") && len(cs[i].Text) <= c06BytesMax {
+			bytesIx[i] = len(reqs)
+			reqs = append(reqs, "c06_eval_bytes "+c06Fuel+" "+hx.H(cs[i].Text))
+		}
+	}
 	resp := e.m.Batch(reqs)
 	for i, c := range cs {
 		r := res[i]
@@ -1342,6 +1373,16 @@ func c06Exprs(e *env, perCase time.Duration) {
 		cls := ""
 		if len(f) > 0 {
 			cls = f[0]
+		}
+		if bytesIx[i] >= 0 {
+			icls, ival := cls, ""
+			if cls == "perr" {
+				icls = "error"
+			}
+			if len(f) >= 3 {
+				ival = hx.UnH(f[2])
+			}
+			c06CompareBytes(e, "EvalExpr", c, icls, ival, resp[bytesIx[i]], func(s string) string { return canonIDs(s, 1) }, c06HugeFloatToInt(c.Text))
 		}
 		e.res.Count("expr:"+c.Text, true, "evalexpr:"+c.Tag)
 		e.res.Histogram["evalexpr-impl:"+r.Status+":"+cls]++
@@ -1480,6 +1521,15 @@ func c06Globals(e *env, perCase time.Duration) {
 		reqIx[i] = len(reqs)
 		reqs = append(reqs, "c06_globals "+c06Fuel+" "+hx.H(cs[i].Input)+table)
 	}
+	// the byte-string model: no parse table, the right-hand sides go to the scanner and parser models
+	bytesIx := make([]int, len(cs))
+	for i := range cs {
+		bytesIx[i] = -1
+		if res[i].Status == "done" && len(cs[i].Input) <= c06BytesMax {
+			bytesIx[i] = len(reqs)
+			reqs = append(reqs, "c06_globals_bytes "+c06Fuel+" "+hx.H(cs[i].Input))
+		}
+	}
 	resp := e.m.Batch(reqs)
 	for i, c := range cs {
 		r := res[i]
@@ -1512,6 +1562,14 @@ func c06Globals(e *env, perCase time.Duration) {
 		case cls == "panic":
 			e.res.Fail(hx.Violation{Kind: "oracle", What: "panic escaped soy.ParseGlobals", Case: c, Observed: hx.UnH(head[1])}, "")
 			continue
+		}
+		if bytesIx[i] >= 0 && (cls == "ok" || cls == "error") {
+			ival := ""
+			if len(head) >= 2 {
+				ival = hx.UnH(head[1])
+			}
+			c06CompareBytes(e, "ParseGlobals", short, cls, ival, resp[bytesIx[i]],
+				func(s string) string { return c06GlobCanon(c06VmToPairs(s)) }, false)
 		}
 		m := resp[reqIx[i]]
 		if len(m) == 0 || strings.HasPrefix(m[0], "!") {
